@@ -3,6 +3,7 @@ package checks
 import (
 	"bufio"
 	"bytes"
+	"errors"
 	"fmt"
 	"net"
 	"net/http"
@@ -186,6 +187,7 @@ func runC17(c *vf.Case) {
 	closeSent, peerClosed, held := false, false, false
 	quiescing := false
 	overlaps, ctlWhileWrite := 0, 0
+	tooBig, tooBigWhileWrite := 0, 0
 	buf := make([]byte, 8192)
 	var shape strings.Builder
 	closeCodeSent := uint16(0)
@@ -252,6 +254,15 @@ func runC17(c *vf.Case) {
 					readCB = nil
 				}
 				c.Logf("    <- AsyncNextMessage completes err=%v n=%d (call#%d)", err, n, cur.calls)
+				if errors.Is(err, websocket.ErrMessageTooBig) {
+					// the library answers a message that does not fit the caller's buffer with a Close of its own,
+					// queued behind whatever write is in flight: from here on the stream is closing
+					closeSent = true
+					tooBig++
+					if writeCB != nil {
+						tooBigWhileWrite++
+					}
+				}
 				if err == nil && !peerClosed && !quiescing && r.Chance(3, 4) {
 					armRead()
 				}
@@ -361,6 +372,11 @@ func runC17(c *vf.Case) {
 			armRead()
 		case k <= 3:
 			startWrite()
+		case k == 4 && r.Chance(1, 8) && !closeSent:
+			p := asciiBytes(r, len(buf)+r.Range(1, 60))
+			c.Logf("  peer sends a text message of %d bytes, more than a message read can take (write in flight: %v)", len(p), writeCB != nil)
+			tr.feed(wsref.Frame{Fin: true, Opcode: wsref.OpText, Payload: p}.Encode())
+			shape.WriteString("D")
 		case k == 4:
 			p := asciiBytes(r, r.Intn(60))
 			c.Logf("  peer sends a text message of %d bytes", len(p))
@@ -492,6 +508,8 @@ func runC17(c *vf.Case) {
 	c.Count("read_write_overlaps", overlaps)
 	c.Count("control_frames_handled_while_a_write_was_in_flight", ctlWhileWrite)
 	c.Count("callbacks_checked", len(cbs))
+	c.Count("messages_too_big_for_the_read_buffer", tooBig)
+	c.Count("messages_too_big_while_a_write_was_in_flight", tooBigWhileWrite)
 	c.Count("wire_frames", len(frames))
 	for _, cb := range cbs {
 		c.Cover("callbacks_by_api", strings.SplitN(cb.what, "(", 2)[0]+"/"+variant)
